@@ -138,11 +138,16 @@ func runC11(c *Ctx) {
 		limit := m(lim)
 		var amount ssa.Value
 		eachInstr(fn, func(in ssa.Instruction) {
-			ph, ok := in.(*ssa.Phi)
-			if !ok {
+			ph, isVal := in.(ssa.Value)
+			if !isVal {
 				return
 			}
-			if big, small, ok := minPhi(ph); ok {
+			_, isPhi := in.(*ssa.Phi)
+			_, isCall := in.(*ssa.Call)
+			if !isPhi && !isCall {
+				return
+			}
+			if big, small, ok := minOf(ph); ok {
 				// min(n, limit()): minPhi returns (big, small) = (the one tested greater, the other)
 				var call *ssa.Call
 				var prm bool
@@ -171,6 +176,10 @@ func runC11(c *Ctx) {
 			for _, r := range *refs {
 				switch x := r.(type) {
 				case *ssa.Phi, *ssa.DebugRef:
+				case *ssa.Call:
+					if bi, isB := x.Call.Value.(*ssa.Builtin); !isB || bi.Name() != "min" {
+						rawUse = true
+					}
 				case *ssa.BinOp:
 					if x.Op != token.GTR && x.Op != token.LSS && x.Op != token.LEQ && x.Op != token.GEQ {
 						rawUse = true
